@@ -249,6 +249,13 @@ def build(tier, seed):
             bounds="3 rows on 1..3 pages (symbolic break positions), symbolic one-character page_by keys, pageby_header/new_page symbolic",
             what="every page (first or continuation, whatever pageby_header) carries the heading values of its first row, the "
                  "in-page group boundaries of its own rows, and with subline_by the subline heading of its first row"))
+    # O8: a logical page fits its physical page (otherwise the rows that spill over sit under no heading): the page budget with
+    # continuation headings, shared with C03-O1
+    from .C03 import build as c03_build
+    for ob in c03_build(tier, seed)[0]:
+        if ob.oid in ("O1.n2", "O1.n3"):
+            ob.oid = "O8.page_budget." + ob.oid.split(".")[1]
+            obs.append(ob)
     meta = {
         "explanation": "Group headings are decided on the real functions with symbolic group values: _get_group_headers, the "
                        "hierarchical loop of _render_body (expected token sequence computed from the statement), render() step 7, "
